@@ -18,6 +18,7 @@ import (
 	"context"
 	"errors"
 	"fmt"
+	"slices"
 
 	"deps.dev/util/resolve/version"
 )
@@ -149,6 +150,8 @@ func (lc *LocalClient) MatchingVersions(ctx context.Context, vk VersionKey) ([]V
 	if !ok {
 		return nil, fmt.Errorf("version: %v: %w", vk, ErrNotFound)
 	}
-	ms := MatchRequirement(vk, vs)
+	// MatchRequirement reorders the list it is given: hand it a copy, so
+	// that concurrent callers do not write to the client's own list.
+	ms := MatchRequirement(vk, slices.Clone(vs))
 	return ms, nil
 }
